@@ -5,6 +5,7 @@
 
 use crate::cli::{Cmd, Exit, Ident, Stdin, WorkDir};
 use crate::ctx::Ctx;
+#[cfg(feature = "kr")]
 use crate::keyring::Keyring;
 use crate::kio::guarded;
 use crate::refspec;
@@ -38,6 +39,16 @@ pub fn ref_parse(text: &str) -> Vec<(Option<String>, Option<String>, Option<Stri
 struct Step {
     name: String,
     password: String,
+}
+
+/// Does the real binary accept this keyring text? (used when the in-process parser is unavailable)
+#[allow(dead_code)]
+fn tool_accepts(wd: &WorkDir, text: &str) -> bool {
+    let p = wd.write("probe-keyring.txt", text.as_bytes());
+    wd.write("probe.txt", b"x");
+    // an unknown recipient name is reported only after the keyring parsed
+    let o = Cmd::new(&wd.path, &["encrypt", "probe.txt", "-t", "no-such-name-kmon", "-f", "no-such-name-kmon", "-k", p.to_str().unwrap(), "--env-pass"]).pass("x").run();
+    o.stderr_s().contains("not found")
 }
 
 pub fn run(ctx: &Ctx) {
@@ -103,7 +114,11 @@ pub fn run(ctx: &Ctx) {
                 if o.exit != Exit::Code(1) || after != before {
                     // accepted: the file must at least still be a keyring in which everything is usable
                     let text = String::from_utf8_lossy(after.as_deref().unwrap_or_default()).into_owned();
-                    if !text.is_empty() && !matches!(guarded(|| Keyring::new(&text)), Ok(Ok(_))) {
+                    #[cfg(feature = "kr")]
+                    let parses = matches!(guarded(|| Keyring::new(&text)), Ok(Ok(_)));
+                    #[cfg(not(feature = "kr"))]
+                    let parses = tool_accepts(&wd, &text);
+                    if !text.is_empty() && !parses {
                         ctx.violation("C14:keyring-no-longer-parses:after-a-name-the-format-cannot-hold", d());
                         ok_history = false;
                         break;
@@ -144,7 +159,18 @@ pub fn run(ctx: &Ctx) {
                 }
             }
             // 2. parses: real parser and independent tokenizer
+            #[cfg(not(feature = "kr"))]
+            {
+                // no in-process parser available: the tool itself must accept the file
+                if !tool_accepts(&wd, &after_text) {
+                    ctx.violation(&format!("C14:keyring-no-longer-parses:{}", state_key), detail());
+                    ok_history = false;
+                    break;
+                }
+            }
+            #[cfg(feature = "kr")]
             let parsed = guarded(|| Keyring::new(&after_text));
+            #[cfg(feature = "kr")]
             let kr = match parsed {
                 Ok(Ok(k)) => k,
                 Ok(Err(e)) => {
@@ -165,11 +191,14 @@ pub fn run(ctx: &Ctx) {
             let mut all_ok = true;
             for (name, pw) in &expect {
                 let sec = secs.iter().find(|s| s.0.as_deref() == Some(name.as_str()));
-                let real = kr.get_key(name);
+                #[cfg(feature = "kr")]
+                let real: Option<String> = kr.get_key(name).map(|k| k.public_key.as_str().to_string());
+                #[cfg(not(feature = "kr"))]
+                let real: Option<String> = sec.and_then(|s| s.1.clone());
                 match (sec, real) {
-                    (Some(sec), Some(key)) => {
+                    (Some(sec), Some(real_pk)) => {
                         let pk = sec.1.clone().unwrap_or_default();
-                        if key.public_key.as_str() != pk {
+                        if real_pk != pk {
                             ctx.violation("C14:parsers-disagree-on-an-entry", detail());
                             all_ok = false;
                             break;
